@@ -271,7 +271,16 @@ func runC17(c *core.Ctx) {
 			ok1, _ := precedesLocally(f, wb, s.Pt)
 			ok2, _ := precedesLocally(f, setDone, s.Pt)
 			ok3, _ := precedesLocally(f, setNext, s.Pt)
-			c.Check(ok1 && ok2 && ok3 && len(wb) > 0, "readerLoop|progress is recorded before the chunk is queued", "T7 Pairing", s.Pos(), "next and done are updated and the state is stored into sessions[key] before each Enqueue", "a chunk can be queued without the session's progress (next/done) having been stored: a resumed session repeats or skips items")
+			// the stored copy must already contain the updates: every path from an update to the send passes the write-back
+			ok4 := true
+			for _, upd := range append(append([]core.Point{}, setDone...), setNext...) {
+				if f.CanReach(upd, s.Pt) {
+					if o, _ := f.MustPassBetween(upd, wb, s.Pt); !o {
+						ok4 = false
+					}
+				}
+			}
+			c.Check(ok1 && ok2 && ok3 && ok4 && len(wb) > 0, "readerLoop|progress is recorded before the chunk is queued", "T7 Pairing", s.Pos(), "next and done are updated, and only then the state is stored into sessions[key], before each Enqueue", "a chunk can be queued while the stored session state lacks the latest next/done (the state is a value copy): a resumed or finished session repeats items or sends a second 'done' response")
 			// resp.Done carries the same flag
 			okD := false
 			for _, a := range assignments(f) {
